@@ -11,6 +11,13 @@ from proof_generation.interpreter import ExecutionPhase
 from proof_generation.proved import Proved
 
 B = Bridge()
+
+
+def _register_defs():
+    import json as _json
+    reg = B.__dict__.setdefault('_defs', {})
+    for n in all_notations().values():
+        reg.setdefault(_json.dumps(B.to_json(n.definition), sort_keys=True), n.definition)
 CLS = {'Implies': P.Implies, 'App': P.App, 'Exists': P.Exists, 'Mu': P.Mu, 'EVar': P.EVar, 'SVar': P.SVar,
        'Symbol': P.Symbol, 'MetaVar': P.MetaVar, 'ESubst': P.ESubst, 'SSubst': P.SSubst}
 NOTATIONS = {'bot': P.bot, 'not': P.neg, 'top': P.top, 'and': P._and, 'or': P._or, 'equiv': P.equiv}
@@ -112,6 +119,8 @@ def do(c):
         return None if r is None else dict(r)
     if f == 'op':     # C12: one operation, result as kind-tagged value
         return V(do(c['call']))
+    if f == 'apply_notation':
+        return all_notations()[c['label']](*[B.to_py(a) for a in c['args']])
     if f == 'notations':
         return [[k, n.arity] for k, n in all_notations().items()]
     if f == 'roundtrip':
@@ -153,6 +162,7 @@ def do(c):
 
 
 def main():
+    _register_defs()
     out = sys.stdout
     for line in sys.stdin:
         line = line.strip()
